@@ -1,5 +1,7 @@
 import TTV.Model.Stream
 import TTV.Spec.C10
+import TTV.Lemmas.ConsumerSrc
+import TTV.Generated.ConsumerSrc
 /-! # C10 — stream consumers account for every test exactly once
 
 All statements are for **every** finite list of `status` events (any ids, route codes, statuses, tags,
@@ -1153,5 +1155,62 @@ example :
     let t := modelRun r
     rDict r { t with dict := t.dict ++ [{ id := 0, tags := [], details := [], status := .success, ts0 := some (.t 2), ts1 := none }] }
       = false := by decide
+
+/-! ## ties to the source (`harness/pystream.py` → `TTV/Generated/ConsumerSrc.lean`, regenerated on every run) -/
+open TTV.ConsumerSrc in
+/-- **`_update_case` is the code's**: the model's `upd` is the interpretation of the four terms that symbolic execution
+of `_StreamToTestRecord._update_case` yields — status replaced iff `test_status is not None`, second timestamp always
+replaced (also by `None`), a chunk appended iff `file_name is not None and file_bytes` (truthiness: a non-empty chunk),
+tags replaced iff `test_tags is not None` (also by an empty set) -/
+theorem C10_src_update_case (r : Report) (e : Event) :
+    updInterp Generated.ConsumerSrc.updStatus Generated.ConsumerSrc.updTs1 Generated.ConsumerSrc.updDetails
+      Generated.ConsumerSrc.updTags r e = some (upd r e) := by
+  have h1 : Generated.ConsumerSrc.updStatus = refUpdStatus := by decide
+  have h2 : Generated.ConsumerSrc.updTs1 = refUpdTs1 := by decide
+  have h3 : Generated.ConsumerSrc.updDetails = refUpdDetails := by decide
+  have h4 : Generated.ConsumerSrc.updTags = refUpdTags := by decide
+  rw [h1, h2, h3, h4]; exact updInterp_ref r e
+
+open TTV.ConsumerSrc in
+/-- **`status` is the code's**: `_ensure_key` (no test id: nothing happens; else a record is created if the key has none),
+`_update_case` on the record with every argument handed to its own parameter, and — iff the status is not interim — the
+record **popped from the table before** it is handed to the callback, whose exception leaves `status()`: this is the
+model's `statusF`, for every fault plan -/
+theorem C10_src_status (faults : List Nat) (s : FSt) (e : Event) :
+    let r := sInterp faults
+      (updInterp Generated.ConsumerSrc.updStatus Generated.ConsumerSrc.updTs1 Generated.ConsumerSrc.updDetails Generated.ConsumerSrc.updTags)
+      Generated.ConsumerSrc.ensureKey e Generated.ConsumerSrc.recordStatus { tbl := s.tbl, n := s.n }
+    r.bad = false ∧ (({ tbl := r.tbl, n := r.n } : FSt), r.handed, r.raised) = statusF faults s e := by
+  have h1 : Generated.ConsumerSrc.updStatus = refUpdStatus := by decide
+  have h2 : Generated.ConsumerSrc.updTs1 = refUpdTs1 := by decide
+  have h3 : Generated.ConsumerSrc.updDetails = refUpdDetails := by decide
+  have h4 : Generated.ConsumerSrc.updTags = refUpdTags := by decide
+  have h5 : Generated.ConsumerSrc.ensureKey = refEnsureKey := by decide
+  have h6 : Generated.ConsumerSrc.recordStatus = refRecordStatus := by decide
+  rw [h1, h2, h3, h4, h5, h6]; exact sInterp_ref faults s e
+
+open TTV.ConsumerSrc in
+/-- **`stopTestRun` is the code's**: `popitem()` (last in, first out), second timestamp cleared, handed over — each
+record out of the table before the callback sees it -/
+theorem C10_src_stop (faults : List Nat) (l : List (Key × Report)) (n : Nat) :
+    dInterp faults Generated.ConsumerSrc.recordStop l n = stopLoop faults l n := by
+  have h : Generated.ConsumerSrc.recordStop = refRecordStop := by decide
+  rw [h]; exact dInterp_ref faults l n
+
+open TTV.ConsumerSrc in
+/-- **`StreamToDict` and `StreamToExtendedDecorator` are the code's**: `StreamToDict` hands every event on;
+`StreamToExtendedDecorator.status` drops exactly the `exists` events *before* the table, `startTestRun` starts the wrapped
+result then the table, `stopTestRun` flushes the table then stops the wrapped result, each completed record is replayed by
+`to_test_case().run(decorated)` — together the model's `toExtendedF` -/
+theorem C10_src_extended (faults : List Nat) (es : List Event) :
+    es.filterMap (fStatus · Generated.ConsumerSrc.dictStatus) = es
+    ∧ extInterp Generated.ConsumerSrc.extStatus Generated.ConsumerSrc.extStart Generated.ConsumerSrc.extStop
+        Generated.ConsumerSrc.extHandle faults es = toExtendedF faults es := by
+  have h0 : Generated.ConsumerSrc.dictStatus = refDictStatus := by decide
+  have h1 : Generated.ConsumerSrc.extStatus = refExtStatus := by decide
+  have h2 : Generated.ConsumerSrc.extStart = refExtStart := by decide
+  have h3 : Generated.ConsumerSrc.extStop = refExtStop := by decide
+  have h4 : Generated.ConsumerSrc.extHandle = refExtHandle := by decide
+  rw [h0, h1, h2, h3, h4]; exact ⟨fStatus_refDict es, extInterp_ref faults es⟩
 
 end TTV.Props.C10
